@@ -117,6 +117,28 @@ Router::~Router()
         conn = connRefs.begin();
     }
 
+    // Delete connectors, shapes and junctions that were created but whose
+    // addition is still queued.  They are owned by the router but have not
+    // yet been placed in connRefs or m_obstacles.
+    ActionInfoList queuedActions;
+    queuedActions.swap(actionList);
+    for (ActionInfoList::iterator action = queuedActions.begin();
+            action != queuedActions.end(); ++action)
+    {
+        if ((action->type == ConnChange) && !action->conn()->m_active)
+        {
+            delete action->conn();
+        }
+    }
+    for (ActionInfoList::iterator action = queuedActions.begin();
+            action != queuedActions.end(); ++action)
+    {
+        if ((action->type == ShapeAdd) || (action->type == JunctionAdd))
+        {
+            delete action->obstacle();
+        }
+    }
+
     // Remove remaining obstacles (shapes and junctions).
     ObstacleList::iterator obstacle =  m_obstacles.begin();
     while (obstacle != m_obstacles.end())
